@@ -184,3 +184,100 @@ Proof.
     apply has_body; [exact (recv_ok_of _ _ _ _ _ _ Hok R G)|exact F].
   - cbn [recv_obj]. apply has_body; [exact (recv_ok_of sch h mid None _ md Hok eq_refl G)|exact F].
 Qed.
+
+(* ================================================================== Clear *)
+Lemma clear_prog_correct : clear_prog_stmt.
+Proof.
+  intros sch h r f Hwf Hok. destruct r as [|mid p| | | | | | | | | |]; try exact I.
+  unfold run_clear, run_meth, canon_clear, rp_fields. cbn [rm_guard rm_cases].
+  rewrite rp_assoc_canon.
+  destruct p as [id|]; cbn [step xst_of].
+  2:{ destruct (nth_error (fields_of sch mid) f); reflexivity. }
+  rewrite field_of_nth.
+  destruct (get_msg sch mid) as [md|] eqn:G.
+  2:{ rewrite (fields_of_none _ _ G). destruct f; reflexivity. }
+  rewrite (fields_of_md _ _ _ G).
+  destruct (nth_error (m_fields md) f) as [fd|] eqn:F; cbn [option_map]; [|reflexivity].
+  destruct (recv_obj sch h mid (Some id)) as [ob|] eqn:R; [|reflexivity].
+  pose proof (recv_ok_of _ _ _ _ _ _ Hok R G) as RO.
+  unfold canon_clear_body. cbn [eval_clear].
+  destruct (f_shape fd) as [|pk|o|kk] eqn:S.
+  - destruct (f_ty fd) as [k|m] eqn:T.
+    + cbn [eval_clear]. rewrite F, S, T, zero_ok_lit. cbn [put_obj]. destruct k; reflexivity.
+    + cbn [eval_clear]. rewrite F, S, T. reflexivity.
+  - cbn [eval_clear]. rewrite F, S. destruct (f_ty fd); reflexivity.
+  - cbn [eval_clear]. rewrite (member_in_self _ _ _ _ F S). unfold slot_at. cbn [put_obj]. destruct (f_ty fd); reflexivity.
+  - cbn [eval_clear]. rewrite F, S. destruct (f_ty fd); reflexivity.
+Qed.
+
+(* ================================================================== WhichOneof *)
+Lemma rp_assoc_seq {B} (g : nat -> B) : forall n i j,
+  rp_assoc (map (fun o => (o, g o)) (seq i n)) j = if (i <=? j) && (j <? i + n) then Some (g j) else None.
+Proof.
+  induction n as [|n IH]; intros i j; cbn [seq map rp_assoc].
+  - destruct (i <=? j) eqn:A; [|reflexivity]. cbn [andb]. apply Nat.leb_le in A.
+    assert (L : (j <? i + 0) = false) by (apply Nat.ltb_ge; lia). rewrite L. reflexivity.
+  - destruct (Nat.eqb i j) eqn:E.
+    + apply Nat.eqb_eq in E. subst j. rewrite Nat.leb_refl. assert (L : (i <? i + S n) = true) by (apply Nat.ltb_lt; lia).
+      rewrite L. reflexivity.
+    + apply Nat.eqb_neq in E. rewrite IH.
+      destruct (i <=? j) eqn:A; destruct (S i <=? j) eqn:A'; cbn [andb];
+        try (apply Nat.leb_le in A); try (apply Nat.leb_gt in A); try (apply Nat.leb_le in A'); try (apply Nat.leb_gt in A'); try lia;
+        try reflexivity.
+      replace (S i + n) with (i + S n) by lia. reflexivity.
+Qed.
+
+Lemma in_indexed {A} (l : list A) : forall i j x, In (j, x) (rp_indexed i l) -> i <= j /\ nth_error l (j - i) = Some x.
+Proof.
+  induction l as [|a l IH]; intros i j x H; cbn [rp_indexed In] in H; [destruct H|].
+  destruct H as [H|H].
+  - inversion H; subst. rewrite Nat.sub_diag. split; [lia|reflexivity].
+  - apply IH in H. destruct H as [H1 H2]. split; [lia|]. replace (j - i) with (S (j - S i)) by lia. exact H2.
+Qed.
+
+Lemma member_in_of fs j fd o : nth_error fs j = Some fd -> rp_member_of o fd = true -> member_in fs j o = Some fd.
+Proof.
+  unfold rp_member_of, member_in. intros -> H. destruct (f_shape fd); try discriminate. rewrite H. reflexivity.
+Qed.
+
+Lemma members_forallb {C} (g : nat * field -> C) fs o :
+  forallb (fun c : nat * C => match member_in fs (fst c) o with Some _ => true | None => false end)
+          (map (fun jf => (fst jf, g jf)) (filter (fun jf => rp_member_of o (snd jf)) (rp_indexed 0 fs))) = true.
+Proof.
+  apply forallb_forall. intros [j c] H. apply in_map_iff in H. destruct H as [[j' fd] [E H]]. cbn [fst snd] in E.
+  inversion E; subst j' c. apply filter_In in H. destruct H as [H M]. cbn [snd] in M.
+  apply in_indexed in H. destruct H as [_ H]. rewrite Nat.sub_0_r in H. cbn [fst]. rewrite (member_in_of _ _ _ _ H M). reflexivity.
+Qed.
+
+Lemma members_assoc {C} (body : nat -> field -> C) fs o f' fd' :
+  nth_error fs f' = Some fd' -> rp_member_of o fd' = true ->
+  rp_assoc (map (fun jf => (fst jf, body (fst jf) (snd jf))) (filter (fun jf => rp_member_of o (snd jf)) (rp_indexed 0 fs))) f' = Some (body f' fd').
+Proof.
+  intros F M. rewrite rp_assoc_filter. cbn [Nat.ltb Nat.leb]. rewrite Nat.sub_0_r, F. cbn [snd]. rewrite M. reflexivity.
+Qed.
+
+Lemma whichoneof_prog_correct : whichoneof_prog_stmt.
+Proof.
+  intros sch h r j Hwf Hok. destruct r as [|mid p| | | | | | | | | |]; try exact I.
+  unfold run_which, run_meth, canon_which, rp_fields, rp_noneofs. cbn [rm_guard rm_cases step].
+  destruct (get_msg sch mid) as [md|] eqn:G.
+  2:{ cbn [seq map rp_assoc]. destruct p; reflexivity. }
+  rewrite (fields_of_md _ _ _ G).
+  rewrite (rp_assoc_seq (fun o => WBOneof o (map (fun jf => (fst jf, fst jf)) (filter (fun jf => rp_member_of o (snd jf)) (rp_indexed 0 (m_fields md)))))).
+  cbn [Nat.leb andb Nat.add].
+  destruct (j <? m_oneofs md) eqn:L.
+  2:{ destruct p as [id|]; cbn [xst_of recv_obj]; [destruct (get_obj h id) as [o|]; [destruct (Nat.eqb (o_mid o) mid)|]|]; reflexivity. }
+  assert (X : forall own ob, recv_ok md ob ->
+      eval_which (m_fields md) h (XObj own ob)
+             (WBOneof j (map (fun jf => (fst jf, fst jf)) (filter (fun jf => rp_member_of j (snd jf)) (rp_indexed 0 (m_fields md))))) =
+     Some (h, PField match nth j (o_oneofs ob) None with Some (f0, _) => Some f0 | None => None end)).
+  { intros own ob RO. cbn [eval_which].
+    rewrite (members_forallb (fun jf => fst jf)).
+    destruct (slot_at ob j) as [[f' e]|] eqn:SL; unfold slot_at in SL; rewrite SL; [|reflexivity].
+    destruct (recv_slot _ _ _ _ _ RO SL) as [fd' [F' [M' _]]].
+    rewrite (members_assoc (fun n _ => n) _ _ _ _ F' M'). reflexivity. }
+  destruct p as [id|]; cbn [xst_of].
+  - destruct (recv_obj sch h mid (Some id)) as [ob|] eqn:R; [|reflexivity].
+    apply X. exact (recv_ok_of _ _ _ _ _ _ Hok R G).
+  - cbn [recv_obj]. apply X. exact (recv_ok_of sch h mid None _ md Hok eq_refl G).
+Qed.
